@@ -6,7 +6,8 @@ TC = 'thread/thread.cpp'
 TH = 'thread/thread.h'
 QA = [(r'lock_state\.load\([^)]*\)', 'q_load(this)', 0),
       (r'lock_state\.compare_exchange_(?:strong|weak)\(\s*(\w+),\s*([^,]+),\s*std::memory_order_\w+,\s*std::memory_order_\w+\)', r'q_cas(this, &\1, \2)', 0),
-      (r'lock_state\.fetch_sub\(1, [^)]*\)', 'q_fetch_sub(this, 1)', 0), (r'lock_state\.store\(0, [^)]*\)', 'q_store(this, 0)', 0),
+      (r'lock_state\.fetch_sub\((\w+), [^)]*\)', r'q_fetch_sub(this, \1)', 0), (r'lock_state\.fetch_add\((\w+), [^)]*\)', r'q_fetch_sub(this, -(int64_t)(\1))', 0),
+      (r'lock_state\.store\((\w+), [^)]*\)', r'q_store(this, \1)', 0),
       (r'(?<![\w>.])try_wake\(\)', 'Q_try_wake(this)', 0),
       (r'cv_unique\.notify_one\(\)', 'q_notify_one_unique(this)', 0), (r'cv_shared\.notify_all\(\)', 'q_notify_all_shared(this)', 0)]
 SL = dict(rettype='void', scoped_lock=('spin_lock() /* {0} */', 'spin_unlock() /* {0} */'))
